@@ -241,6 +241,45 @@ Section Text.
     unfold two_species. rewrite !label_strip, !label_nonempty. reflexivity.
   Qed.
 
+  (* ---- the signature a [Potential-Form] key spells (model/ItemLabel.v: sig_key), for labels that are identifiers *)
+  Lemma split_all_label c n : pc c = false -> split_all c (ltext n) = [ltext n].
+  Proof.
+    intro Hc. pose proof (label_without c Hc n) as H. unfold without in H. induction (ltext n) as [|x t IH]; [reflexivity|].
+    cbn [forallb] in H. apply andb_true_iff in H. destruct H as [Hx Ht]. apply negb_true_iff in Hx. cbn [split_all]. rewrite Hx, (IH Ht). reflexivity.
+  Qed.
+  Lemma split_all_app_label c n rest : pc c = false -> split_all c (ltext n ++ c :: rest) = ltext n :: split_all c rest.
+  Proof.
+    intro Hc. pose proof (label_without c Hc n) as H. unfold without in H. induction (ltext n) as [|x t IH].
+    - cbn [app split_all]. rewrite Z.eqb_refl. reflexivity.
+    - cbn [forallb] in H. apply andb_true_iff in H. destruct H as [Hx Ht]. apply negb_true_iff in Hx. cbn [app split_all]. rewrite Hx, (IH Ht). reflexivity.
+  Qed.
+  Lemma split_all_sep_join ps : forall first, (exists n, first = ltext n) \/ first = [114] ->
+    split_all 44 (first ++ sep_join [44] (map ltext ps)) = first :: map ltext ps.
+  Proof.
+    induction ps as [|p ps IH]; intros first Hf.
+    - cbn [map sep_join]. rewrite app_nil_r. destruct Hf as [(n & ->)| ->]; [apply split_all_label; reflexivity|reflexivity].
+    - cbn [map sep_join]. cbn [app]. 
+      assert (E : split_all 44 (first ++ 44 :: ltext p ++ sep_join [44] (map ltext ps)) = first :: split_all 44 (ltext p ++ sep_join [44] (map ltext ps))).
+      { destruct Hf as [(n & ->)| ->]; [apply split_all_app_label; reflexivity|reflexivity]. }
+      rewrite E, (IH (ltext p) (or_introl (ex_intro _ p eq_refl))). reflexivity.
+  Qed.
+  Theorem sig_key_canon n ps : (forall m, ident_word (ltext m) = true) ->
+    sig_key (canon (KSig n ps)) = Some (ltext n, [114] :: map ltext ps).
+  Proof.
+    intro Hid. unfold sig_key.
+    assert (Es : strip (canon (KSig n ps)) = canon (KSig n ps)).
+    { destruct (canon_ends (KSig n ps)) as (c & t & d & E & Hc & _ & _ & _ & (u & Eu) & Hd). rewrite E in *. exact (strip_noop c t u d Hc Hd Eu). }
+    rewrite Es. cbn [canon app]. rewrite (split_first_app 40 _ _ (label_without 40 eq_refl n)), (Hid n).
+    assert (Er : rev (114 :: sep_join [44] (map ltext ps) ++ [41]) = 41 :: rev (114 :: sep_join [44] (map ltext ps))).
+    { change (114 :: sep_join [44] (map ltext ps) ++ [41]) with ((114 :: sep_join [44] (map ltext ps)) ++ [41]). rewrite rev_app_distr. reflexivity. }
+    rewrite Er. change (41 =? 41) with true. cbv iota. rewrite rev_involutive.
+    change (114 :: sep_join [44] (map ltext ps)) with ([114] ++ sep_join [44] (map ltext ps)). rewrite (split_all_sep_join ps [114] (or_intror eq_refl)).
+    cbn [map]. rewrite map_map. assert (Em : map (fun x => strip (ltext x)) ps = map ltext ps) by (apply map_ext; intro; apply label_strip). rewrite Em.
+    assert (Ef : forallb ident_word (strip [114] :: map ltext ps) = true).
+    { cbn [forallb]. apply andb_true_iff. split; [reflexivity|]. apply forallb_forall. intros x Hx. apply in_map_iff in Hx. destruct Hx as (m & <- & _). apply Hid. }
+    rewrite Ef. reflexivity.
+  Qed.
+
   (* ---- sections *)
   Definition table_ws (sp : nat) : list Z * list Z := nth (sp mod 4) [([], []); ([32], []); ([], [32]); ([32; 32], [32])] ([], []).
   Definition sect_text (s : Store.sect) : list Z :=
@@ -407,4 +446,20 @@ Proof.
     change (split_arrow (c :: d :: r')) with (if (c =? 45) && (d =? 62) then Some ([], r') else match split_arrow (d :: r') with Some (a, b) => Some (c :: a, b) | None => None end).
     rewrite Hc. cbn [andb]. rewrite (IH Hr). reflexivity. }
   rewrite E. reflexivity.
+Qed.
+(* text after the closing bracket of a signature is refused (fix 9a3d831) *)
+Lemma split_first_last x c l : c <> x -> forall a b, split_first x (l ++ [c]) = Some (a, b) -> exists b', b = b' ++ [c].
+Proof.
+  intro Hc. induction l as [|y l IH]; intros a b E; cbn [app split_first] in E.
+  - destruct (c =? x) eqn:Ec; [apply Z.eqb_eq in Ec; contradiction|discriminate].
+  - destruct (y =? x); [injection E as _ <-; exists l; reflexivity|].
+    destruct (split_first x (l ++ [c])) as [[a' b']|] eqn:E'; [|discriminate]. injection E as _ <-. exact (IH _ _ eq_refl).
+Qed.
+Theorem sig_key_trailing k c : is_sp c = false -> c <> 41 -> c <> 40 -> sig_key (k ++ [c]) = None.
+Proof.
+  intros Hc H41 H40. unfold sig_key. assert (E : exists u, strip (k ++ [c]) = u ++ [c]).
+  { unfold strip. destruct (lstrip_keeps_last k c Hc) as (t & Et). rewrite Et. exists t. apply (rstrip_app_nonsp t c [] Hc). }
+  destruct E as (u & ->). destruct (split_first 40 (u ++ [c])) as [[lab rest]|] eqn:Es; [|reflexivity]. destruct (ident_word lab); [|reflexivity].
+  destruct (split_first_last 40 c u H40 _ _ Es) as (r' & ->).
+  rewrite rev_app_distr. cbn [rev app]. destruct (c =? 41) eqn:E; [apply Z.eqb_eq in E; contradiction|reflexivity].
 Qed.
